@@ -200,6 +200,16 @@ Definition pk_kf (cols : list nat) (r : row) : option key := Some (proj cols r).
 Definition uq_kf (cols : list nat) (r : row) : option key :=
   let k := proj cols r in if has_null k then None else Some k.
 
+(** the list of keys carried by the rows, in order, and "some key occurs twice" *)
+Definition somes (kf : row -> option key) (rows : list row) : list key :=
+  flat_map (fun r => match kf r with Some k => [k] | None => [] end) rows.
+
+Fixpoint has_dup (l : list key) : bool :=
+  match l with
+  | [] => false
+  | k :: r => key_mem k r || has_dup r
+  end.
+
 (** one step of IndexManager::update_for_insert on one map *)
 Definition h_insert (kf : row -> option key) (r : row) (n : nat) (m : amap nat) : amap nat :=
   match kf r with Some k => am_insert k n m | None => m end.
